@@ -244,7 +244,7 @@ func (j *rootJudge) genAndJudge(r *gen.RNG, i int) {
 		t.Add(t, ref.One) // 2m+1
 		p := new(big.Int).Exp(t, big.NewInt(int64(k)), nil)
 		den := new(big.Int).Exp(big.NewInt(2), big.NewInt(int64(k)), nil) // 2^k
-		q := new(big.Int).Quo(p, den)                                    // floor((m+1/2)^k)
+		q := new(big.Int).Quo(p, den)                                     // floor((m+1/2)^k)
 		if r.Bool() {
 			q.Add(q, ref.One)
 		}
